@@ -58,6 +58,18 @@ Theorem T02_headers_preserved :
 Proof. exact headers_preserved. Qed.
 Print Assumptions T02_headers_preserved.
 
+(* Trailers of a chunked response: every declared trailer field reaches the client with every
+   value; undeclared ones are passed on iff some trailer was declared, else dropped. *)
+Theorem T02_trailers_preserved : forall meth r,
+  g_te (go_state meth r) = true ->
+  (forall k vs v, In (k, vs) (r_trailer r) -> In v vs -> is_token k = true ->
+     In (k, sanitize v) (o_trailers (go_obs meth r))) /\
+  (forall k vs v, r_trailer r <> [] -> In (k, vs) (r_late r) -> In v vs -> is_token k = true ->
+     In (k, sanitize v) (o_trailers (go_obs meth r))) /\
+  (r_trailer r = [] -> o_trailers (go_obs meth r) = []).
+Proof. exact trailers_preserved. Qed.
+Print Assumptions T02_trailers_preserved.
+
 (* Every field the origin's Connection field nominates (values split at commas, white space
    around an element ignored, any letter case) is absent from the relayed header. *)
 Theorem T02_connection_nominated_removed : forall h v t,
@@ -153,5 +165,5 @@ Print Assumptions T02_failed_write_closes.
 Example T02_example :
   Forall (x_ok true) example_xs /\ length (served example_xs) = 3%nat /\
   map (fun x => o_body (x_obs x)) example_xs = [[]; b "hellowor"; b "plain"] /\
-  map (fun x => o_trailers (x_obs x)) example_xs = [[]; [(b "X-T", b "v")]; []].
+  map (fun x => o_trailers (x_obs x)) example_xs = [[]; [(b "X-Late", b "l"); (b "X-T", b "v")]; []].
 Proof. exact example_ok. Qed.
